@@ -196,6 +196,17 @@ reg('C19', 'model_checking',
     'Selection among several loaded keys carrying the same identifier is checked as a refinement. The internal alias layout is used only to distinguish states.',
     'explicit-state BFS to closure on the real keyring with a multiset reference model', 'DESIGN.md 2/C19')
 
+reg('C08', 'model_checking',
+    'Own output: every packet of every object the harness can build through the API (signatures of 21 kinds x 3 signers and every option, keys of all 43 fixture '
+    'materials public / secret / subkey / protected under 4 ciphers, user ids incl. boundary lengths, image attributes up to 70 kB, literal packets over format x '
+    'content x name x time, compressed packets of 3 algorithms nesting 1-5 packets, session-key packets for 7 recipient kinds x ciphers and 7 S2K hashes, one-pass, '
+    'marker, trust) x 4 trailers: Packet() consumes exactly the packet, leaves the trailer, re-serialises identically. Foreign input: the same bodies re-framed by '
+    'the reference in new 1/2/5-octet, partial (1-3 chunks) and old 1/2/4-octet / indeterminate form, unknown tags 15, 16, 20-63, unknown versions, every '
+    'subpacket type hashed and unhashed, lossy-looking unhashed values (non-ASCII text, booleans 2/255, unknown flag bits, non-minimal lengths): re-serialised '
+    'header length equals body length, accepted again, same field values (generic attribute walk), fixed point. Plus in-place mutation of parsed objects.',
+    'Trusted: refpgp.wire framing. Packets PGPy rejects are outside the foreign half and are counted.',
+    'exhaustive packet enumeration through the real parser / serialiser vs. reference framing', 'DESIGN.md 2/C08')
+
 ALL = ['C%02d' % i for i in range(1, 21)]
 
 NOT_YET = 'check not built yet in this revision of /verif (work in progress; see DESIGN.md section 8)'
